@@ -9,11 +9,11 @@ CLAIMS = {
  'C01': dict(text='Bounded symbolic execution of the real peg-generated expression parser (plc_parser::expression, __infix_parse and its closures, from MIR) on token sequences whose operator '
                   'token types are symbolic; each path yields the complete ExprKind tree, compared with an Annex B.3.1 precedence-climbing reference; mismatches are replayed through parse_program.',
              tech='SMT-guided bounded symbolic execution of rustc MIR of the generated parser (z3)', sect='§4 C01',
-             note='Kernels K1 (expressions), K4 (variable block class x qualifier, symbolic block/qualifier token types through parse_library), K5 (statement_list over token sequences with symbolic token types against an IEC B.3.2 DFA reference; flatten_statements unit step). Outside: all other productions, whole-grammar faithfulness, literal spelling (C09).'),
+             note='Kernels K1 (expressions), K4 (variable block class x qualifier, symbolic block/qualifier token types through parse_library), K5 (statement_list over token sequences with symbolic token types against an IEC B.3.2 DFA reference; flatten_statements unit step), K6 (33 source templates with symbolic shape selectors and unique identifiers: the names of the returned library, depth-first, equal the names written, in order), K7 (sign and digits of integer literals symbolic in four grammar contexts). Outside: all other productions, whole-grammar faithfulness, literal spelling (C09).'),
  'C02': dict(text='Bounded symbolic execution of rule visitors from MIR on program templates resolved by the real resolve_types, with identifiers symbolic over a small alphabet, compared with reference predicates written from the rule documentation; '
                   'stages::semantic executed with every rule replaced by a nondeterministic stub (registration of every rule module, Err iff any rule fails, diagnostics concatenated). Mismatches are replayed through analyze().',
              tech='SMT-guided bounded symbolic execution of rustc MIR (z3) with symbolic-key hash-map model', sect='§4 C02',
-             note='Kernels K1 (5 rules incl. function-block invocation scope) and K3. Outside: the remaining rules, rule interaction on whole programs, derive(Recurse) traversal completeness (K2) unless listed in evidence.'),
+             note='Kernels K1 (7 rule templates incl. function-block invocation scope and constant globals), K4 (subrange limits on symbolic signed bounds) and K3. Outside: the remaining rules, rule interaction on whole programs, derive(Recurse) traversal completeness (K2) unless listed in evidence.'),
  'C03': dict(text='Symbolic execution of FileBackedProject::semantic (parse/analyze as nondeterministic stubs, hash order nondeterministic) and of xform_toposort_declarations::apply on declaration pairs with symbolic names; '
                   'the solver decides that no parse error, analysis error or declaration is lost. Models are replayed through Project::semantic / ironplcc check / analyze.',
              tech='SMT-guided bounded symbolic execution of rustc MIR (z3)', sect='§4 C03',
@@ -52,11 +52,11 @@ CLAIMS = {
  'C04': dict(text='Kani/CBMC proof harnesses over the compiled ironplc-dsl numeric constructors (all FixedPoint values, real time crate) decide panic freedom; '
                   'failing checks come with concrete playback values that are replayed through the public API and through `check` of a program containing the literal.',
              tech='bounded model checking with Kani/CBMC (bit-precise, compiled code)', sect='§4 C04', kani=True,
-             note='Kernels K2 (Kani), K3 (FixedPoint::parse on symbolic digit strings), K4 (AddressAssignment::try_from on symbolic direct-address texts, regex crate by contract with the patterns read from the MIR). Outside: stack depth, time budgets, panic sites not enumerated in evidence.'),
+             note='Kernels K2 (Kani), K3 (FixedPoint::parse on symbolic digit strings), K4 (AddressAssignment::try_from on symbolic direct-address texts, regex crate by contract with the patterns read from the MIR), K5 (parse_library error path on a token of symbolic type and symbolic UTF-8 text). Outside: stack depth, time budgets, panic sites not enumerated in evidence.'),
  'C09': dict(text='Kani/CBMC harnesses decide integer and duration value conversions over all 128-bit / FixedPoint values; mirsym kernels (when listed in evidence) execute the literal grammar actions on symbolic digit strings; '
                   'models are replayed through parse_program.',
              tech='bounded model checking with Kani/CBMC; SMT-based symbolic execution of MIR (z3)', sect='§4 C09', kani=True,
-             note='Kernels K3a (Kani), K2 (based/decimal integer texts incl. the u128 limit), K3b (fixed point texts with underscores), K4 (DATE / TOD grammar actions on symbolic digits). Outside: correct rounding of reals, $-escapes in strings, duration unit arithmetic beyond K3a.'),
+             note='Kernels K3a (Kani), K2 (based/decimal integer texts incl. the u128 limit), K3b (fixed point texts with underscores), K4 (DATE / TOD grammar actions on symbolic digits), K5 (sign and digits of integer literals through parse_program). Outside: correct rounding of reals, $-escapes in strings, duration unit arithmetic beyond K3a.'),
  'C05': dict(text='Bounded symbolic execution of the real lexer::tokenize over the logos state machine lifted from MIR (all valid UTF-8 sources up to N bytes), '
                   'of preprocessor::remove_oscat_comment and of lsp_project::map_label; solver decides token tiling/text/line/col, offset preservation and span->position mapping for '
                   'every input in the bound; models are replayed through tokenize_program / the LSP binary.',
